@@ -5,7 +5,8 @@
   Mirrors data/encoding/json.go: JSONWriter.encodeJsonChildren / PushName / writeJsonName (module-name stack:
   a name carries "module:" where the module differs from the parent's — several modules, augments) / writeValue (empty → [null] or null,
   boolean and numbers bare — 64-bit numbers as strings in RFC 7951 — everything else a string),
-  JSONReader.name / values / unserializedChildren / decodeValue (after the repair a number is its literal);
+  JSONReader.name / values / unserializedChildren (after the repair an object naming one node twice — "m:x" and
+  "x" — is refused, as in XML) / decodeValue (after the repair a number is its literal);
   data/encoding/xml.go: encodeXmlChildren (a list contributes its entries, a leaf-list one element per
   value), unmarshaledXML.unserializedChildren (after the repair all entries of a list are gathered under
   one node) / values; data/encoding/unserialized.go: convertToDataNode / getChildName (a list entry is
@@ -101,6 +102,8 @@ def decKids (kids : List (SN τ)) : List (Tok × J) → Option (List DN)
   | [] => some []
   | (k, j) :: r => do
     let n := stripMod k
+    -- (after the repair) "module:name" and "name" are one node: given twice, "too many elements"
+    if r.any (fun kv => stripMod kv.1 = n) then none
     let here ← (match lookup n (dataKids kids), j with
       | some (.container _ _ ck), .obj kvs => (decKids ck kvs).map fun ks => DN.mk n ks []
       | some (.list _ keys _ _ _ ck), .arr es => (decEntries ck (keys.headD []) es).map fun es' => DN.mk n es' []
